@@ -769,6 +769,19 @@ func init() {
 		for _, s := range fixedTmplExprs {
 			tryExpr(s, true)
 		}
+		// the boundary shapes of the primary-expression grammar
+		for _, s := range xFixedSources {
+			// sources that the parser accepts and the type checker always rejects (a selector on a
+			// slice type, a 3-index slicing without indexes) do not survive and are not valid source
+			if s == "([]int).x" || s == "a[::]" {
+				continue
+			}
+			tryExpr(s, false)
+			tryExpr(s, true)
+		}
+		for _, s := range xFixedTmplSources {
+			tryExpr(s, true)
+		}
 		g := newGen(c.Rng)
 		for i := 0; i < c.N; i++ {
 			g.tmpl = i%3 == 0
